@@ -184,6 +184,13 @@ package util
 //@   ensures err != nil ==> file == nil
 //@   ensures fsex(keypath(f, key)) == (err == nil)
 
+// Opening a store reads and changes no file: a store holds no state besides its directory, and nothing is "recovered" at
+// start-up (whatever a crashed Set left behind - at most the key's temporary file - stays where it is).
+//@ func NewFileStorage(dir) (s, err)
+//@   pure
+//@   ensures err == nil ==> s != nil
+//@   ensures files: forallv("p:str", fsex(p) == old(fsex(p)) && fsdata(p) == old(fsdata(p)), fsex(p))
+
 // Set(k, v): afterwards the key holds exactly v (C18); at every point between two file-system effects the key's file holds
 // either its previous or the new content and every other file except the key's temporary file is untouched (C19).
 //@ func (f *fileStorage) Set(key, value) (err)
